@@ -25,6 +25,7 @@ class SignProver:
         self.bounds = {}  # node -> (lb, ub) of a scalar rule result
         self.reviewed = {}  # (rule qual, difference text) -> reason; such differences are taken as non-negative
         self.used_reviewed = set()
+        self.clamped = {}  # node -> 'clamped-minus' events of its rule (max(0, a - b) with b of unknown sign)
 
     def sign(self, name, _stack=()):
         if name in self.memo:
@@ -73,6 +74,9 @@ class SignProver:
             except RecursionError:
                 self.note[name] = "recursion"
                 return None
+            cm = [e for e in rr.interp.events if e[0] == "clamped-minus"]
+            if cm:
+                self.clamped[name] = cm
             sg = sign_of(rr.res)
             # the rounding wrapper keeps the sign unless it adds a negative offset
             if sg is not None and r.rounding_key:
